@@ -418,3 +418,42 @@ for _t in ("Tie/EmuAgree.v", "Tie/EmuDisciplined.v", "Tie/EmuOrderOk.v", "Tie/Co
     if _t not in PROPS["C19"]["tie_files"]:
         PROPS["C19"]["tie_files"].append(_t)
 
+# ---- what the later rounds of seeded changes added to the generators (appended to each property's rule, so that the
+# evidence says what a run covered) ----
+_RULE_MORE = {
+    "C01": " Also: the command cases (every command after receives, the current message observed after it), two clients alive at once with interleaved receives.",
+    "C02": " Also: Error-identifier frames with all 256 codes and payloads of 0, 2, 3, 254, 255 bytes; the command cases through the client.",
+    "C03": " Also: maximal frames (2046..2048 data bytes) through the client; codec: the value the client hands out for packets with fixed-point fields at the ends of the range, against the reference decoding, re-encoded under the packet's identifier.",
+    "C04": " Also: all ordered pairs of data types in one message through a client (first value read after the second was scanned); every decoded value encoded by an emulator configured with the packet's identifier, every 8th after a reconfiguration through its receive loop; cut-off packets (length byte = full size) with and without spare capacity; fields holding the largest / smallest fixed-point values.",
+    "C05": " Also: type-level boundary patterns and values for scalar, pair, vector, quaternion and matrix types in both fixed precisions (oracle: an in-range component decodes to less than one unit away); cut-off fixed-point packets for every real-valued type.",
+    "C06": " Also: the command cases through a client; validate cases (verdict, rendering, accessors) for Error-identifier frames; short prefixes of constructed frames to the split function in buffers that end there; frames of every boundary size handed to an emulator (kind emu).",
+    "C07": " Also: the client's walk over decodable / undecodable / short packets, the scan called again after a refusal; the constructor's frames at the boundaries of the two length formats (kind newmsg).",
+    "C08": " Also: damaged acknowledges, maximal frames and Error-identifier frames in front of the acknowledge; an extended acknowledge whose first five bytes end a completely filled 4096-byte scanner buffer.",
+    "C09": " Also: the output-configuration and CAN-output-configuration decoders on kept and preallocated destinations in every relation of length, capacity and payload size; maximal frames through the client.",
+    "C10": " Also: commands in the middle of a receive sequence (several frames per read, a read boundary inside a frame, a command after the failure was reported); frames announcing 2049..65529 bytes; the constructor's boundary frames.",
+    "C11": " Also: every supported type x coordinate system x precision through an emulator (configured directly, and after a reconfiguration through its receive loop with an encode in between); all 65536 wire values through the client's DataType accessor; the mixture detector (two configurations alternated while other goroutines encode).",
+    "C12": " Also: the decoders probed on views with spare capacity as well as on exact slices.",
+    "C13": " Also: several GetOutputConfiguration calls on one client, every result examined after the last; configurations of 0..512 settings through the client's SetOutputConfiguration (the request payload is the case); the largest and the empty configuration as commands to an emulator (kind emu); the mixture detector; the constructor's boundary frames.",
+    "C14": " Also: extended-length acknowledges; every query result examined after the same query was answered again; maximal unrelated frames in front of the reply.",
+    "C15": " Also: kept and preallocated destinations in every relation of length, capacity and number of settings; 0..32 settings through a frame and the client.",
+    "C16": " Also: transmitted fixed-point values at the ends of the ranges; trickling reads of 1, 2, 3, 5 bytes on both sides; a 400-frame burst.",
+    "C17": " The probed type's slot holds a type with a non-default coordinate system in the other configuration; packet headers are compared as raw bytes.",
+    "C18": " Also: commands of every boundary size (up to 2048 data bytes) in measurement mode followed by go-to-config and a transmit; configurations of 31..100 settings; commands fed in two reads cut after 1..4 bytes.",
+    "C19": " Also: records sent as a UTCTime packet next to packets of each of the 511 other group/type values (standard and extended-length messages) and read back from the client; a pointer taken from the client's accessor once, read after each of three later messages; records end to end (client configures an emulator over a synchronous link, the emulator transmits as soon as go-to-measurement returned); the constructor's boundary frames.",
+}
+for _pid, _more in _RULE_MORE.items():
+    PROPS[_pid]["rule"] = PROPS[_pid]["rule"] + _more
+
+# ---- trust notes: which hand-written models are by now also tied by translation (tie T) ----
+_NOTE_MORE = {
+    "C13": " Tie T (Tie/ConfAgree.v): OutputConfiguration.Unmarshal and Marshal as REGENERATED statement by statement from outputconfiguration.go on every run (reslice-or-grow on capacity, append, the loops, SetUint16 in place) are proved equal to outconf_unmarshal / outconf_marshal for every destination, payload and configuration; the emulator's in-place decode is tied by Tie/EmuAgree.v.",
+    "C14": " Tie T (Tie/StructAgree.v, Tie/CanAgree.v): DeviceID, HWVersion, ProductCode, CANConfig and CANOutputConfiguration decoders as regenerated from informationmessages.go / canconfig.go / canoutputconfiguration.go (the last with Go's slice aliasing) are proved equal to the reference decoders for every payload; the command methods must have the exact statement shape the command table is read from.",
+    "C15": " Tie T (Tie/CanAgree.v, Tie/StructAgree.v): the output-configuration codec as regenerated with Go's slice aliasing (views, helpers translated in place) and the bus-configuration codec are proved equal to the models for every payload, destination and configuration; the decoder is proved to leave its payload unchanged.",
+    "C19": " Tie T for the field mapping (Tie/TimeAgree.v): UTCTime.Time / UnmarshalTime and GNSSPVTData.Time as regenerated from measurementdata.go, with time.Date(.., time.UTC) and the accessors of ts.UTC() as parameters instantiated with the calendar model.",
+    "C11": " Through the emulator: Tie/EmuAgree.v (MarshalMessage hands the encoder the last configured identifier of the type, unchanged), Tie/EmuDisciplined.v, Tie/EmuOrderOk.v; through the client: Tie/ClientAgree.v (DataType accessor).",
+    "C07": " The client's walk: Tie/ClientAgree.v (ScanMeasurementData: cursor advance, dispatch and decode decisions).",
+}
+for _pid, _more in _NOTE_MORE.items():
+    PROPS[_pid]["level_note"] = PROPS[_pid]["level_note"] + _more
+PROPS["C15"]["technique"] = "Rocq proof (bit-mask algebra, induction) over a Gallina model proved equal to the statement-level translation of the Go codec (slice aliasing included) + exhaustive (bus config) and differential correspondence"
+
